@@ -20,6 +20,7 @@ because the spec judges the implementation's *observations*):
 import re
 
 from . import common
+from . import universe
 
 MODULE = "StorageModel.Properties.C09"
 THEOREMS = ["code_shape_is_repaired", "check_readonly", "check_reports_unfixed", "check_complete", "check_sound_reports",
@@ -318,6 +319,7 @@ def run(ctx, replay_cases=None):
     ctx.obligation("correspondence: implementation output = model output on every generated case "
                    "(except disagreements explained by a known finding)", not bad_corr and not [b for b in bad_spec if b[1] != b[2]],
                    f"{n_corr} disagreement(s), {len(bad_corr) + len([b for b in bad_spec if b[1] != b[2]])} unexplained")
+    universe.universe_stream(ctx, ["C09"])  # end of the generated-cases phase: the shared universe stream
     if bad_spec:
         c, a, m, s, left = min(bad_spec, key=lambda t: (len(t[0]), t[0]))
         if not ctx.replay_mode:
